@@ -45,7 +45,7 @@ PROPS = {
     },
     "C03": {
         "level": "exploration",
-        "parts": [{"engine": "sched", "profile": "c03", "weight": 2}, {"engine": "sched", "profile": "c03f", "weight": 2}, {"engine": "fault", "profile": "c12", "weight": 2}, {"engine": "fault", "profile": "c13", "weight": 1}, {"engine": "integ", "profile": "c06", "weight": 1}, {"engine": "fault", "profile": "c06s", "weight": 1}],
+        "parts": [{"engine": "sched", "profile": "c03", "weight": 2}, {"engine": "sched", "profile": "c03f", "weight": 2}, {"engine": "fault", "profile": "c12", "weight": 2}, {"engine": "fault", "profile": "c13", "weight": 1}, {"engine": "integ", "profile": "c06", "weight": 1}, {"engine": "fault", "profile": "c06s", "weight": 1}, {"engine": "fault", "profile": "c14", "weight": 1}],
         "rule": "fault-free worlds as C01 (bounded liveness: Schedule returns within 60 s simulated after the last completion; run count per stage == model) plus cancelled worlds: Cancel from a separate goroutine at a seeded step with 0..n tasks in flight, a second Cancel, Cancel after return, stage-condition error (missing binary); INTEG part: the C12 cancellation enumeration with the real TaskRunner (Schedule must return, nothing left Running, no task run twice, process survives); plus fault-free and timeout worlds with the real runner (C06 / C13 worlds: no stage left Waiting after an uncancelled run, no task run twice). distinct = canonical event-log hash; non-trivial = >=2 tasks in flight together or >=1 fault fired",
         "assumptions": _SCHED_ASSUME,
     },
@@ -68,7 +68,7 @@ _INTEG_ASSUME = [
 PROPS.update({
     "C06": {
         "level": "exploration",
-        "parts": [{"engine": "integ", "profile": "c06", "weight": 3}, {"engine": "fault", "profile": "c06s", "weight": 1}, {"engine": "watch", "profile": "c20", "weight": 1}],
+        "parts": [{"engine": "integ", "profile": "c06", "weight": 3}, {"engine": "fault", "profile": "c06s", "weight": 1}, {"engine": "watch", "profile": "c20", "weight": 1}, {"engine": "fault", "profile": "c13", "weight": 1}],
         "rule": "worlds: 1..3 (thorough 5) tasks with <=3 commands x <=3 variations (one of them possibly the empty variation `{}`), before/after hooks, condition, allow_failure, run directly (parallel or sequential drivers) or as stages of a seeded DAG; exit status of every exec drawn per world (0 mostly, else 1..255, command-not-found), durations seeded; in 2% of the worlds one command prints 1.1..1.5 MiB. Oracle: per-task exec history == reference sequencing model, no two execs of one task overlap. Second part: one task shared by 2..4 stages (config-loader built), each stage with its own injected condition / hook / command results - every stage's execution must follow the model fed with that stage's results (a second use must re-evaluate everything). Third part (WATCH engine): the watcher re-runs one task (1 command, 1..2 after commands) for every event, each run's command exit status seeded: every run executes command then - iff it succeeded - the after commands, whatever earlier runs of the task did. distinct = canonical event-log hash; non-trivial = >=2 simulated processes alive together or >=1 non-zero exit injected",
         "assumptions": _INTEG_ASSUME,
     },
